@@ -198,7 +198,7 @@ class AssetSetTimegrid(Contract):
     properties = ('C10', 'C02', 'C08', 'C09')
 
     def cases(self):
-        return [dict(freq=f) for f in (None, 'own')]
+        return [dict(freq=f, held=h) for f in (None, 'own') for h in (False, True)]
 
     def harness(self, H, case):
         g = mk_root_grid(H)
@@ -210,6 +210,9 @@ class AssetSetTimegrid(Contract):
         st, en = TS(H.int('a_start'), tz), TS(H.int('a_end'), tz)
         fr = None if case['freq'] is None else H.str('a_freq')
         self_obj = Obj('Asset', name=H.str('asset_name'), wacc=w, start=st, end=en, freq=fr, profile=None)
+        if case.get('held'):
+            # the asset already holds this very grid object (an earlier set-up); the cache on the grid is another asset's by now
+            self_obj.set('timegrid', g)
         ctx = dict(self_obj=self_obj, args=[g], g=g, w=w, st=st, en=en, fr=fr)
         return ctx
 
@@ -255,7 +258,7 @@ class AssetSetTimegrid(Contract):
         a = rng.randint(0, T)
         b = rng.randint(a, T)
         return N.Params(g_T=T, wacc=rng.choice([0.0, 0.0, 0.1, 0.5]), stale_wacc=rng.choice([0.0, 0.3, 0.8]), win_a=a, win_b=b,
-                        stale_a=rng.randint(0, T))
+                        stale_a=rng.randint(0, T), stale_same_window=rng.random() < .5)
 
     def native(self, case, P):
         import numpy as np
@@ -264,11 +267,14 @@ class AssetSetTimegrid(Contract):
         T = int(P['g_T'])
         tg, _ = N.synthetic_grid(T, None)
         pts = list(tg.timepoints) + [tg.end]
-        # stale state left by "another asset" sharing the grid object
-        tg.set_wacc(float(P['stale_wacc']))
-        tg.set_restricted_grid(pts[int(P['stale_a'])], None)
         a = eao.assets.Asset(name='asset_name', start=pts[int(P['win_a'])], end=pts[int(P['win_b'])], wacc=float(P['wacc']),
                              freq=None if case['freq'] is None else 'h')
+        if case.get('held'):
+            a.set_timegrid(tg)
+        # stale state left by "another asset" sharing the grid object (possibly one with the very same window, but another wacc)
+        other = eao.assets.Asset(name='other asset', start=a.start if P.get('stale_same_window') else pts[int(P['stale_a'])],
+                                 end=a.end if P.get('stale_same_window') else None, wacc=float(P['stale_wacc']), freq=a.freq if P.get('stale_same_window') else None)
+        other.set_timegrid(tg)
         call = lambda: (a.set_timegrid(tg), a)[1]
         tg2, _ = N.synthetic_grid(T, None)
         tg2.set_wacc(float(P['wacc']))
@@ -398,3 +404,91 @@ class TimegridCoarse(Contract):
                 yield ('C13.coarse.discount_of_first_member', z3.ForAll([k], z3.Implies(z3.And(kr, lift(mk.n) > 0), lift(dff.f(k)) == ctx['df'](mk.f(0)))))
             finally:
                 sym.SCOPE.pop()
+
+
+@register
+class TimegridSetRestricted(Contract):
+    """Timegrid.set_restricted_grid(start, end, freq): the restricted grid is built ANEW on every call, from the arguments (missing ones
+    = the grid's own start / end / frequency) and from the grid's CURRENT state (discount factors): nothing of an earlier call survives
+    (C10; C09: what one asset sees does not depend on which asset used the shared grid before)."""
+    qualname = 'basic_classes:Timegrid.set_restricted_grid'
+    prefix = 'C10.set_restricted'
+    properties = ('C10', 'C09', 'C08')
+
+    def cases(self):
+        return [dict(args=a, freq=f) for a in ('none', 'window') for f in (None, 'own')]
+
+    def harness(self, H, case):
+        g = mk_root_grid(H)
+        g.attrs.pop('__closed__', None)                      # arbitrary further attributes (left-overs of earlier calls)
+        g.set('restricted', Havoc('stale cache: restricted grid of an earlier call'))
+        tz = g.get('tz')
+        st, en = (None, None) if case['args'] == 'none' else (TS(H.int('r_start'), tz), TS(H.int('r_end'), tz))
+        fr = None if case['freq'] is None else H.str('r_freq')
+        return dict(self_obj=g, args=[st, en, fr], g=g, st=st, en=en, fr=fr)
+
+    def callees(self, case, ctx=None):
+        def ctor(I, self_obj, args, kwargs):
+            tok = Obj('Timegrid', __token__='restricted grid constructed by this call')
+            ctx.setdefault('ctor_calls', []).append((tok, list(args), dict(kwargs)))
+            return tok
+        return {'basic_classes:Timegrid': ctor}
+
+    def post(self, H, case, outcome, I, ctx):
+        g = ctx.get('g')
+        if I is None:
+            # run-time twin: second call with the same arguments after the grid's discount factors changed
+            if outcome[0] != 'return':
+                yield ('C10.set_restricted.no_raise', False)
+                return
+            import numpy as np
+            r = ctx['tg'].restricted
+            ok = list(int(x) for x in r.I) == ctx['expect_I'] and bool(np.allclose(np.asarray(r.discount_factors, dtype=float), ctx['expect_df'], rtol=1e-12, atol=0))
+            for nm in ('C10.set_restricted.built_anew_from_current_state', 'C09.set_restricted.independent_of_earlier_users_of_the_grid'):
+                yield (nm, ok)
+            return
+        if outcome[0] != 'return':
+            yield ('C10.set_restricted.no_raise', False if outcome[0] == 'raise' else Havoc(outcome[1]))
+            return
+        calls = ctx.get('ctor_calls', [])
+        ok = len(calls) == 1 and g.has('restricted') and g.get('restricted') is calls[0][0]
+        for nm in ('C10.set_restricted.built_anew_from_current_state', 'C09.set_restricted.independent_of_earlier_users_of_the_grid'):
+            yield (nm, ok)
+        if ok:
+            tok, args, kw = calls[0]
+            vals = dict(zip(['start', 'end', 'freq', 'main_time_unit', 'ref_timegrid', 'timezone'], args))
+            vals.update(kw)
+            want_s = ctx['st'] if ctx['st'] is not None else g.get('start')
+            want_e = ctx['en'] if ctx['en'] is not None else g.get('end')
+            want_f = ctx['fr'] if ctx['fr'] is not None else g.get('freq')
+            yield ('C08.set_restricted.window_and_frequency_as_given_or_the_grids_own', vals.get('start') is want_s and vals.get('end') is want_e and
+                   vals.get('freq') is want_f and vals.get('main_time_unit') is g.get('main_time_unit') and vals.get('ref_timegrid') is g)
+        writes = {str(what) for (o, what, ln, md) in I.writes if o is g}
+        yield ('C10.set_restricted.frame_only_the_restricted_grid_is_written', writes <= {'restricted'})
+
+    def schema(self, case):
+        return [('g_T', 'int', None)]
+
+    def sample(self, case, rng):
+        from pyvc import native as N
+        T = rng.randint(1, 6)
+        a = rng.randint(0, T)
+        return N.Params(g_T=T, win_a=a, win_b=rng.randint(a, T), w1=rng.choice([0., .3, .8]), w2=rng.choice([0., .1, .5]))
+
+    def native(self, case, P):
+        import numpy as np
+        from pyvc import native as N
+        T = int(P['g_T'])
+        tg, _ = N.synthetic_grid(T, None)
+        pts = list(tg.timepoints) + [tg.end]
+        a, b = int(P['win_a']), int(P['win_b'])
+        args = (None, None) if case['args'] == 'none' else (pts[a], pts[b])
+        fr = None if case['freq'] is None else 'h'
+        tg.set_wacc(float(P['w1']))
+        tg.set_restricted_grid(args[0], args[1], fr)         # an earlier user of the grid, same window, other discounting
+        tg.set_wacc(float(P['w2']))
+        tg2, _ = N.synthetic_grid(T, None)
+        tg2.set_wacc(float(P['w2']))
+        rng_ = range(0, T) if case['args'] == 'none' else range(a, b)
+        ctx = dict(tg=tg, expect_I=list(rng_), expect_df=[float(tg2.discount_factors[k]) for k in rng_])
+        return (lambda: tg.set_restricted_grid(args[0], args[1], fr)), ctx
